@@ -79,8 +79,10 @@ CHARBLOCK = ("BEGIN CHARACTERS;\n  DIMENSIONS NCHAR=4;\n  FORMAT DATATYPE=DNA GA
              "    A ACGT\n    B_b A-G?\n    'C c' {AC}CGT\n    D ACGN\n  ;\nEND;\n")
 
 
-def nexus_doc(blocks, taxa, chars):
-    """blocks: list of (seq of pool indices, translate index or None)"""
+def nexus_doc(blocks, taxa, chars, between=0):
+    """blocks: list of (seq of pool indices, translate index or None)
+    between: what stands between consecutive TREE statements -- 0 nothing, 1 a plain and a metadata
+    comment, 2 a statement the reader does not interpret (UTREE) followed by such comments"""
     out = ["#NEXUS\n"]
     if taxa:
         out.append("BEGIN TAXA;\n  DIMENSIONS NTAX=5;\n  TAXLABELS A B_b 'C c' D E;\nEND;\n")
@@ -95,6 +97,10 @@ def nexus_doc(blocks, taxa, chars):
             labmap = TRANSLATE[tr]
             out.append("  TRANSLATE\n" + ",\n".join("    %s %s" % (labmap[k], LAB[k]) for k in "ABCD") + ";\n")
         for i, k in enumerate(seq):
+            if between and i > 0:
+                if between == 2:
+                    out.append("  UTREE u%d = (%s,%s,(%s,%s));\n" % (i, labmap["A"], labmap["D"], labmap["B"], labmap["C"]))
+                out.append("  [before tree %d] [&burnin=%d]\n" % (i, 100 + i))
             out.append("  TREE %st%d_%d = %s;\n" % ("* " if i == 1 else "", bi, i, stmt(k, labmap)))
         out.append("END;\n")
     if chars and len(blocks) == 1:
@@ -137,6 +143,16 @@ def corpus(tier, rng):
                     continue
                 docs.append(dict(schema="nexus", name="nexus:%s/tr%s/taxa%d" % ("".join(map(str, s)), tr, taxa),
                                  text=nexus_doc([(s, tr)], taxa, chars=(taxa and k % 4 < 2)), sizes=[len(s)]))
+    # statements and comments standing between the TREE statements of a block
+    for j, s in enumerate(x for x in one if len(x) >= 2):
+        if not full and j % 5:
+            continue
+        for between in (1, 2):
+            for tr in (None, 0):
+                docs.append(dict(schema="nexus", name="nexus:%s/tr%s/between%d" % ("".join(map(str, s)), tr, between),
+                                 text=nexus_doc([(s, tr)], True, chars=False, between=between), sizes=[len(s)]))
+                docs.append(dict(schema="nexus", name="nexus:%s+%s/tr%s/between%d" % ("".join(map(str, s)), "".join(map(str, s[::-1])), tr, between),
+                                 text=nexus_doc([(s, tr), (s[::-1], None)], j % 2 == 0, chars=False, between=between), sizes=[len(s), len(s)]))
     pairs = [(a, b) for a in two for b in two]
     if not full:
         pairs = [p for i, p in enumerate(pairs) if i % 29 == 0]
